@@ -9,7 +9,8 @@ DOMAINS = {
     ('stdnum.de.handelsregisternummer', 'company_form'): [None, 'GmbH', 'e.G.', 'PartG', 'KG', 'XYZ'],
     ('stdnum.mac', 'validate_manufacturer'): [None, True, False],
     ('stdnum.gs1_128', 'separator'): ['', '|', '[FNC1]', '\x1d'],
-    ('stdnum.luhn', 'alphabet'): ['0123456789', '0123456789abcdef', '0123456789ABCDEFGHIJKLMNOPQRSTUVWXYZ'],
+    ('stdnum.luhn', 'alphabet'): ['0123456789', '0123456789abcdef', '0123456789ABCDEFGHIJKLMNOPQRSTUVWXYZ',
+                                   'abcdef', 'ABCDEFGHIJKLMNOPQRSTUVWXYZ0123456789'],
     ('stdnum.iso7064.mod_37_2', 'alphabet'): ['0123456789ABCDEFGHIJKLMNOPQRSTUVWXYZ*', '0123456789X'],
     ('stdnum.iso7064.mod_37_36', 'alphabet'): ['0123456789ABCDEFGHIJKLMNOPQRSTUVWXYZ', '0123456789'],
     # the alternative table printed in the damm docstring
